@@ -487,6 +487,53 @@ def r18_for_in_mut(text, m, ed, fns, renamed=()):
             ed.add(toks[close].s, toks[close].s, f" {iv} += 1; ", "R18", prio=7)
 
 
+def r22_for_by_value_continue(text, m, ed, fns):
+    """`for X in EXPR { BODY }` over a Vec taken BY VALUE, whose BODY contains `continue` (this Verus rejects `continue`
+    inside `for`) and uses X only as the receiver of method calls / field accesses (auto-ref), is desugared to
+        let mut r22_iN: usize = 0; while r22_iN < EXPR.len() { let X = &EXPR[r22_iN]; r22_iN += 1; BODY }
+    The increment comes first, so `continue` goes to the next element as it does in the `for`. Refused (exit 2) when X is not
+    a plain identifier, EXPR is not a plain place, or X occurs other than as `X.`: a by-value use of X would not type-check
+    against `&T` anyway."""
+    toks = tokenize(text)
+    n = 0
+    for f in fns:
+        if not f.has_body:
+            continue
+        idx = [k for k, t in enumerate(toks) if f.body_s <= t.s < f.body_e]
+        for k in idx:
+            t = toks[k]
+            if not (t.kind == "id" and t.text == "for" and m[t.s:t.e] == "for"):
+                continue
+            if not (toks[k + 1].kind == "id" and toks[k + 2].kind == "id" and toks[k + 2].text == "in"):
+                continue
+            pat = toks[k + 1].text
+            e0 = k + 3
+            e1 = e0
+            plain = True
+            while toks[e1].text != "{":
+                if not (toks[e1].kind in ("id", "num") or toks[e1].text == "."):
+                    plain = False
+                e1 += 1
+            close = match_close(toks, e1)
+            body = m[toks[e1].s:toks[close].e]
+            if not re.search(r"\bcontinue\b", body):
+                continue
+            if toks[e0].text == "&":
+                continue   # a by-reference loop: left as written (Verus decides whether it accepts it)
+            if not plain:
+                raise RsxError(f"R22: `for {pat} in ...` with `continue`: iterated expression is not a plain place taken by value")
+            for q in range(e1 + 1, close):
+                if toks[q].kind == "id" and toks[q].text == pat and m[toks[q].s:toks[q].e] == pat:
+                    if not (toks[q + 1].kind == "p" and toks[q + 1].text == ".") or (toks[q - 1].kind == "p" and toks[q - 1].text == "."):
+                        raise RsxError(f"R22: `{pat}` is used other than as a receiver in the loop body")
+            n += 1
+            iv = f"r22_i{n}"
+            expr = text[toks[e0].s:toks[e1 - 1].e]
+            ed.add(t.s, toks[e0].s, f"let mut {iv}: usize = 0; while {iv} < ", "R22")
+            ed.add(toks[e1 - 1].e, toks[e1 - 1].e, ".len()", "R22", prio=-1)
+            ed.add(toks[e1].e, toks[e1].e, f" let {pat} = &{expr}[{iv}]; {iv} += 1;", "R22", prio=-7)
+
+
 R7_MACROS = ("eprintln", "println", "eprint", "print")
 
 
